@@ -231,6 +231,7 @@ func groupObls(obls []*Obligation) []*oblGroup {
 				}
 			case "sat":
 				g.Status = "failed"
+				g.Solver = o.Res.Solver
 			case "toolimit":
 				if g.Status == "discharged" {
 					g.Status = "toolimit"
@@ -549,6 +550,10 @@ func writeReplay(cr *checkRun, dir, prop string, g *oblGroup, reason string) (st
 			ok, test, out := tryReplay(cr, o)
 			rec["replay_test"] = test
 			rec["replay_output"] = out
+			if o.ReplayPkg != nil {
+				rec["replay_pkg"] = o.ReplayPkg.Path()
+				rec["module"] = cr.prog.ModPath
+			}
 			if ok {
 				repro = true
 			}
